@@ -106,7 +106,7 @@ class Ctx:
                 self.known_hits[key] += 1
                 return False
         os.makedirs(REPLAY_DIR, exist_ok=True)
-        path = os.path.join(REPLAY_DIR, "%s_%d.json" % (self.pid, len(self.violations)))
+        path = os.path.join(REPLAY_DIR, "%s_%s%d.json" % (self.pid, getattr(self, "replay_prefix", ""), len(self.violations)))
         with open(path, "w") as fh:
             json.dump({"property": self.pid, "signature": signature, "description": description,
                        "replay": replay, "seed": self.seed, "tier": self.tier}, fh, indent=1, default=str)
